@@ -279,6 +279,16 @@ def check_proofs(pid, res, tier='quick'):
     deps = deps_of(rel)
     # the whole dependency cone of the property file and of the model runner is scanned
     cone = sorted(set(deps) | set(deps_of('Run/%s.v' % pid)))
+    # every generated file in the cone (also those of the properties whose models are re-used) is regenerated
+    # from /repo as it is now
+    for d in cone:
+        m = re.match(r'Gen/G(\d+)\.v$', d)
+        if m and ('C' + m.group(1)) != pid:
+            try:
+                regenerate_gen('C' + m.group(1))
+            except Exception as e:
+                problems.append('Gen/G%s.v could not be regenerated from /repo: %s' % (
+                    m.group(1), ''.join(traceback.format_exception_only(type(e), e)).strip()))
     hits = scan_forbidden([d for d in cone if os.path.exists(os.path.join(COQ, d))])
     if hits:
         problems.append('forbidden vernacular in development: ' + ', '.join(hits[:10]))
